@@ -120,4 +120,56 @@ theorem dims_eq_refl (d : Dims) : d.beq d = true := by simp [Dims.beq, beq_refl]
 correspondence (the parser is defined by well-founded recursion on the nesting depth, which the
 kernel does not evaluate by `decide`; no general theorem is claimed for it). -/
 
+/-! ## Matrix elements follow the label rule of the product they stand for -/
+
+/-- a product whose result has a one-dimensional side always has well-formed dimensions -/
+theorem mkDims_ok_of_to_trivial (fr to : Sp) (h : to.size = 1) : ∃ d, mkDims fr to = .ok d := by
+  by_cases h1 : fr.size = 1
+  · refine ⟨{ fr, to, type := "scalar", issuper := fr.issuper, superrep := none, issquare := true }, ?_⟩
+    simp [mkDims, h1, h]
+  · refine ⟨{ fr, to, type := if fr.issuper then "operator-bra" else "bra", issuper := fr.issuper,
+              superrep := fr.superrep, issquare := false }, ?_⟩
+    simp [mkDims, h1, h]
+
+theorem mkDims_ok_of_fr_trivial (fr to : Sp) (h : fr.size = 1) : ∃ d, mkDims fr to = .ok d := by
+  by_cases h1 : to.size = 1
+  · refine ⟨{ fr, to, type := "scalar", issuper := fr.issuper, superrep := none, issquare := true }, ?_⟩
+    simp [mkDims, h1, h]
+  · refine ⟨{ fr, to, type := if to.issuper then "operator-ket" else "ket", issuper := to.issuper,
+              superrep := to.superrep, issquare := false }, ?_⟩
+    simp [mkDims, h1, h]
+
+/-- **`A.matrix_element(bra, ket)` is accepted exactly when `bra @ A @ ket` is**: for a bra `l` (trivial
+output side) and a ket `r` (trivial input side), the label check of the repaired `matrix_element` holds
+iff both products of `(l @ A) @ r` have composable labels. -/
+theorem matrix_element_iff_products (A l r : Dims) (hl : l.to.size = 1) (hr : r.fr.size = 1) :
+    matrixElementOk A false l true r = true ↔
+      ∃ d e, l.matmul A = .ok d ∧ d.matmul r = .ok e := by
+  unfold matrixElementOk stateSpace
+  simp only [Bool.false_eq_true, if_false, if_true, Bool.and_eq_true]
+  constructor
+  · rintro ⟨h1, h2⟩
+    obtain ⟨d, hd⟩ := mkDims_ok_of_to_trivial A.fr l.to hl
+    have hd' : l.matmul A = .ok d := by simp [Dims.matmul, h1, hd]
+    obtain ⟨e1, e2⟩ := mkDims_fields hd
+    obtain ⟨e, he⟩ := mkDims_ok_of_fr_trivial r.fr d.to hr
+    refine ⟨d, e, hd', ?_⟩
+    simp [Dims.matmul, e1, h2, he]
+  · rintro ⟨d, e, hd, he⟩
+    have h1 := matmul_requires_equal_spaces l A d hd
+    have h2 := matmul_requires_equal_spaces d r e he
+    unfold Dims.matmul at hd
+    simp only [h1, Bool.not_true, Bool.false_eq_true, if_false] at hd
+    obtain ⟨e1, _⟩ := mkDims_fields hd
+    rw [e1] at h2
+    exact ⟨h1, h2⟩
+
+/-- the rule before the repair accepted every pair of states: labels that do not compose were combined
+(`[[3,2]]` against an operator on `[[2,3]]`) -/
+example : matrixElementOk
+    ⟨.compound [.simple 2, .simple 3], .compound [.simple 2, .simple 3], "oper", false, none, true⟩
+    true ⟨.simple 1, .compound [.simple 3, .simple 2], "ket", false, none, false⟩
+    true ⟨.simple 1, .compound [.simple 2, .simple 3], "ket", false, none, false⟩ = false := by
+  simp [matrixElementOk, stateSpace, Sp.beq, beqL]
+
 end Qv.C02
